@@ -149,6 +149,9 @@ def run(ctx):
     rm.check_distance_dispatch(rc, "X8", "rdp.rdp_fixed")
     from . import c17
     from .common import borrow
+    from . import c01 as _c01
+    res.rule("X11", "rdp_fixed opens every curve with an interior point to refinement: the work stack starts with the whole curve exactly when len(points) > 2 (otherwise the size clause min(max(k, 2), n) fails for it)")
+    borrow(rc, "X11", lambda rc_: _c01._seeds(rc_, only=("rdp_fixed",)))
     borrow(rc, "X8", c17._sec_shortest, c17._sec_perp)        # the distance primitives the split (and the triangle / area scores) are computed with
     members = rc.repo.mod("rdp").classes["Order"].enum_members
     if sorted(members) != sorted(ORDERS):
